@@ -20,6 +20,7 @@ import (
 	"fmt"
 	"math/bits"
 	"os"
+	"runtime/pprof"
 	"sort"
 	"sync"
 	"sync/atomic"
@@ -33,10 +34,14 @@ import (
 
 type bitvec []uint64
 
-func newBitvec(n int) bitvec     { return make(bitvec, (n+63)/64) }
-func (b bitvec) set(i int)       { b[i>>6] |= 1 << (uint(i) & 63) }
-func (b bitvec) get(i int) bool  { return b[i>>6]&(1<<(uint(i)&63)) != 0 }
-func (b bitvec) orWith(o bitvec) { for i := range b { b[i] |= o[i] } }
+func newBitvec(n int) bitvec    { return make(bitvec, (n+63)/64) }
+func (b bitvec) set(i int)      { b[i>>6] |= 1 << (uint(i) & 63) }
+func (b bitvec) get(i int) bool { return b[i>>6]&(1<<(uint(i)&63)) != 0 }
+func (b bitvec) orWith(o bitvec) {
+	for i := range b {
+		b[i] |= o[i]
+	}
+}
 func (b bitvec) zero() {
 	for i := range b {
 		b[i] = 0
@@ -219,6 +224,14 @@ func main() {
 	}
 
 	deadline = time.Now().Add(harness.Pick(c, 15*time.Minute, 4*time.Hour))
+	if p := os.Getenv("C10_CPUPROFILE"); p != "" { // development aid
+		f, err := os.Create(p)
+		if err != nil {
+			harness.Fatal("%v", err)
+		}
+		pprof.StartCPUProfile(f)
+		defer pprof.StopCPUProfile()
+	}
 	c.Rule = "one case = one rule sequence (domain sets: ordered list of (kind,rule) lines; port sets: one range string (+ port list); prefix sets: one ordered prefix list) pushed through every representation of that part and probed on the whole probe list (domain: every name of <=N labels over the label vocabulary; ports: all of 1..65535; prefixes: every vocabulary prefix edge +-1 and its v4-mapped twin). distinct = distinct canonical rule set (sorted, de-duplicated; ports: the reference membership as merged range list); non-trivial = the reference answers both yes and no on the probe list. Enumeration is nested loops over the stated alphabets, simplest first; nothing is sampled."
 	c.Assumptions = []string{
 		"the reference regexp semantics is Go's regexp package compiled independently by the check (the statement names 'regular expression' without a dialect)",
@@ -233,6 +246,7 @@ func main() {
 	portParts(c)
 	prefixParts(c)
 
+	pprof.StopCPUProfile()
 	flushViolations(c)
 	c.Extra["tier_bounds"] = tierBounds(c)
 	c.Finish()
@@ -241,9 +255,9 @@ func main() {
 func tierBounds(c *harness.Check) map[string]any {
 	return map[string]any{
 		"domain_labels":          domLabels,
-		"domain_probe_depth":     harness.Pick(c, 4, 5),
-		"suffix_sequence_length": harness.Pick(c, "<=3 over 84 names", "<=3 over 84 names and <=4 over 39 names"),
-		"mixed_sequence_length":  harness.Pick(c, "<=3, every order, 100-rule alphabet", "<=3, every order, 200-rule alphabet"),
+		"domain_probe_depth":     harness.Pick(c, "names of <=4 labels", "names of <=4 labels; <=5 labels in the deep-probes and threshold parts"),
+		"suffix_sequence_length": harness.Pick(c, "<=2 over 84 names and <=3 over 39 names", "<=3 over 84 names and <=4 over 39 names"),
+		"mixed_sequence_length":  harness.Pick(c, "<=3, every order, 36-rule alphabet; <=2 over 100 rules with every text variant", "<=3, every order, 100-rule alphabet; <=2 over 200 rules with every text variant"),
 		"threshold_sizes":        thresholdSizes,
 		"port_boundaries":        portBoundaries(c),
 		"prefix_vocabulary":      len(prefixVocab(c)),
